@@ -16,7 +16,7 @@ LEVEL = "exploration"
 ENGINE = "spec"
 TECHNIQUE = "differential oracle: independent SimpleStrategy / NetworkTopologyStrategy placement over real token maps"
 LEVEL_TEXT = ("every ring structure with <= 3 hosts (quick) / <= 4 hosts (thorough) x <= 2 tokens x 2 racks x 2 DCs is enumerated with "
-              "all RF 0..4, plus seeded random rings to 6 hosts x 3 racks x 2 DCs x 4 tokens; placement is a pure function of "
+              "all RF 0..4 (for 4-host rings on two DCs 15 of the 25 NTS RF pairs), plus seeded random rings to 6 hosts x 3 racks x 2 DCs x 4 tokens; placement is a pure function of "
               "(ring, topology, replication, key), so exhaustive-small plus random exploration of that input space is the right level")
 LEVEL_NOTE = ("trusted base: spec/placement.py (two structurally different NTS derivations cross-checked, hand-verified vectors), "
               "spec/murmur.py, spec/md5tok.py; not generated: equal tokens on two hosts, hosts without dc/rack, transient replication")
@@ -234,7 +234,7 @@ def judge_world(ctx, world, configs, probes_per_ks, rng, origin):
                 strategy, options, kind, witness["driver"], witness["cassandra"]), witness)
 
 
-def all_configs(dcs, rf_max, rng=None, extra_dc=False):
+def all_configs(dcs, rf_max, rng=None, extra_dc=False, banded=False):
     out = []
     for rf in range(0, rf_max + 1):
         out.append(("SimpleStrategy", {"replication_factor": rf}, rf % 2 == 1))
@@ -248,6 +248,8 @@ def all_configs(dcs, rf_max, rng=None, extra_dc=False):
     else:
         for rf1 in range(0, rf_max + 1):
             for rf2 in range(0, rf_max + 1):
+                if banded and (rf2 - rf1) % (rf_max + 1) not in (0, 1, 3):
+                    continue            # 15 of the 25 pairs: every RF value of each DC against 3 values of the other
                 o = {dcs[0]: rf1, dcs[1]: rf2}
                 if rf2 == 0 and rf1 % 2:
                     del o[dcs[1]]           # datacenter not mentioned at all
@@ -304,7 +306,7 @@ def exhaustive_part(ctx, n_hosts_max, worker, nworkers, sample_fraction=1.0):
                 T = len(owners)
                 positions = spread_positions(T, len(key_pool(part)), idx)
                 world = World(part, owners, locs, positions)
-                configs = all_configs(set(l[0] for l in locs), 4, extra_dc=True)
+                configs = all_configs(set(l[0] for l in locs), 4, extra_dc=True, banded=(n >= 4))
                 judge_world(ctx, world, configs, probes_per_ks=min(len(world.pool), T + (4 if n <= 3 else 2)), rng=rng, origin="exhaustive")
                 ctx.count("exhaustive_rings")
     return idx
@@ -371,7 +373,7 @@ def run(ctx):
     if bad:
         raise Inconclusive("trusted base disagrees with itself: %r" % (bad[:2],))
     ctx.rule = ("(a) every ring structure (owner sequence up to host renaming) with <= 3 hosts [quick; <= 4 thorough, n=4 sampled on "
-                "quick] x 1-2 tokens x every (dc, rack) assignment over 2x2, with SimpleStrategy RF 0..4 and NTS RF 0..4 per DC; "
+                "quick] x 1-2 tokens x every (dc, rack) assignment over 2x2, with SimpleStrategy RF 0..4 and NTS RF 0..4 per DC (4-host rings over two DCs: 15 of the 25 RF pairs, each value of each DC); "
                 "(b) seeded random rings to 6 hosts x 3 racks x 2 DCs x 4 tokens with RF to 7; probes = pool keys at / next to / "
                 "between / beyond ring tokens under Murmur3, Random and ByteOrdered partitioners. distinct = (partitioner, owner "
                 "sequence, locations, strategy+options, token range hit, probe kind); trivial = single host, RF 0, single token")
